@@ -112,17 +112,30 @@ static uint64_t work(int id) {
 }
 
 static uint64_t results[64];
-static void *thr(void *arg) { int id = (int) (intptr_t) arg; results[id] = work(id); return NULL; }
+static int nthreads;
+static volatile int arrived;
+/* all threads leave the barrier together, so that the FIRST call of every library routine in the process is made
+   concurrently (a lazily built table, a one-time initialisation flag) */
+static void *thr(void *arg) {
+    int id = (int) (intptr_t) arg;
+    __atomic_add_fetch(&arrived, 1, __ATOMIC_SEQ_CST);
+    while (__atomic_load_n(&arrived, __ATOMIC_SEQ_CST) < nthreads) { }
+    results[id] = work(id);
+    return NULL;
+}
 
 int main(int argc, char **argv) {
     int n = argc > 1 ? atoi(argv[1]) : 8;
     if (n > 64) n = 64;
     if (argc > 2 && atoi(argv[2]) > 0) ITER = atoi(argv[2]);
+    int threads_first = argc > 3 && atoi(argv[3]) > 0;      /* first use of the library happens inside the threads */
+    nthreads = n;
     uint64_t seq[64];
-    for (int i = 0; i < n; i++) seq[i] = work(i);
+    if (!threads_first) for (int i = 0; i < n; i++) seq[i] = work(i);
     pthread_t th[64];
     for (int i = 0; i < n; i++) pthread_create(&th[i], NULL, thr, (void *) (intptr_t) i);
     for (int i = 0; i < n; i++) pthread_join(th[i], NULL);
+    if (threads_first) for (int i = 0; i < n; i++) seq[i] = work(i);
     int bad = 0;
     for (int i = 0; i < n; i++) if (seq[i] != results[i] || seq[i] == 0) { printf("MISMATCH thread %d seq=%llx par=%llx\n", i, (unsigned long long) seq[i], (unsigned long long) results[i]); bad++; }
     printf("threads=%d iterations=%d mismatches=%d digest0=%llx\n", n, ITER, bad, (unsigned long long) seq[0]);
